@@ -862,6 +862,32 @@ fn main() {
                     }
                 }
             }
+            // ---- a unary operator over a string-valued expression at position k (after a wave-12 seed: the unary check
+            // took "the operand is a binary expression with a built-in result type" for "numeric", so `NOT A$ + B$` -
+            // NOT binds weaker than + - was accepted and failed at run time)
+            if was_str {
+                let sx = |n: &str| E::Lit(T::Str, format!("\"{}\"", n));
+                let cat = |e: &E| E::Bin("plus", "+", Box::new(e.clone()), Box::new(sx("x")));
+                // the whole mutant in parentheses: NOT binds weaker than the relational operators, `NOT a$ < b$` is legal
+                let par = |e: E| E::Paren(Box::new(e));
+                let unary: Vec<(&'static str, Box<dyn Fn(&E) -> E>)> = vec![
+                    ("unary-on-string(not-concat)", Box::new(move |e: &E| par(E::Not(Box::new(cat(e)))))),
+                    ("unary-on-string(neg-paren-concat)", Box::new(move |e: &E| par(E::Neg(Box::new(E::Paren(Box::new(cat(e)))))))),
+                    ("unary-on-string(not-paren-concat)", Box::new(move |e: &E| par(E::Not(Box::new(E::Paren(Box::new(cat(e)))))))),
+                    ("unary-on-string(not)", Box::new(move |e: &E| par(E::Not(Box::new(E::Paren(Box::new(e.clone()))))))),
+                    ("unary-on-string(neg)", Box::new(move |e: &E| par(E::Neg(Box::new(E::Paren(Box::new(e.clone()))))))),
+                ];
+                for (ui, (fam, mk)) in unary.iter().enumerate() {
+                    if !thorough && ui > 0 && (pi + k as usize + ui) % 3 != 0 {
+                        continue;
+                    }
+                    if let Some((q, hit)) = map_prog(&p, k, mk.as_ref()) {
+                        let qp = print_prog(&q, false);
+                        let row = edited_row(&qp, &hit);
+                        cases.push(Case { text: qp.text.clone(), model_req: None, family: fam.to_string(), pos: short(&hit.kind), expect: Expect::AnyOf(&["TypeMismatch", "ArgumentTypeMismatch", "VariableRequired"], row), renamed_text: None, renamed_req: None });
+                    }
+                }
+            }
             if p.ext {
                 let classes: [(&str, &str); 5] = [("whole-array", "AR{z}%()"), ("record", "RC{z}"), ("whole-array", "AT{z}$()"), ("record-element", "RA{z}(1)"), ("whole-array-of-records", "RA{z}()")];
                 for (ci, (class, text)) in classes.iter().enumerate() {
